@@ -136,3 +136,21 @@ CANARIES = CANARIES + [
     dict(name="controlled operation does not rescope its sub-operation", file=FO, function=FO + ":ClassicallyControlledOperation._with_rescoped_keys_",
          find="        sub_operation = protocols.with_rescoped_keys(self._sub_operation, path, bindable_keys)\n", replace="        sub_operation = self._sub_operation\n"),
 ]
+
+
+# the other two key-moving methods have the same shape: f(sub).with_classical_controls(*[f(c) for c in conditions])
+for _meth, _mod_fn, _extra in (("_with_measurement_key_mapping_", "with_measurement_key_mapping", {"key_map": ("const", {"a": "z"})}),
+                               ("_with_key_path_prefix_", "with_key_path_prefix", {"prefix": ("const", ("p",))})):
+    Contract(
+        FO + f":ClassicallyControlledOperation.{_meth}", "C12",
+        cases=[Case(f"{k} condition(s)", {"self": _cco(k), **_extra}) for k in (1, 2)],
+        ensures=["rescoped_all(result)"],
+        env={"rescoped_all": rescoped_all},
+        models={("cirq.protocols.measurement_key_protocol", _mod_fn): _m_rescope},
+        notes="the key transformation is applied to the sub-operation (it may carry control keys of its own) and to every condition, recombined in order",
+    )
+CANARIES = CANARIES + [
+    dict(name="controlled operation does not remap the keys of its sub-operation", file=FO, function=FO + ":ClassicallyControlledOperation._with_measurement_key_mapping_",
+         find="        sub_operation = protocols.with_measurement_key_mapping(self._sub_operation, key_map)\n        sub_operation = self._sub_operation if sub_operation is NotImplemented else sub_operation\n        return sub_operation.with_classical_controls(*conditions)",
+         replace="        sub_operation = self._sub_operation\n        return sub_operation.with_classical_controls(*conditions)"),
+]
